@@ -100,6 +100,64 @@ class Ctx:
             raise Inconclusive("harness build failed (does /repo compile?):\n" + r.stdout + r.stderr)
         return out
 
+    def trace_32bit(self, args, trace, timeout=900):
+        """The same driver run in a 32-bit build (GOARCH=386: `int` and `uint` are 32 bits wide there, which is what the
+        repository's code uses for most fields).  Returns None when the 32-bit trace is byte for byte the trace already
+        validated (or when this machine cannot build / run 386 binaries: a note, this pass is an extra), otherwise the path
+        of the differing trace, which the check validates against the same specification."""
+        out = self.path("drive_386")
+        env = self.goenv()
+        env["GOARCH"] = "386"
+        env["CGO_ENABLED"] = "0"
+        r = subprocess.run(["go", "build", "-tags", "verif", "-o", out, "./cmd/drive"], cwd=HARNESS, env=env, capture_output=True, text=True)
+        if r.returncode != 0:
+            self.notes.append("32-bit pass skipped: the harness does not build for GOARCH=386: " + (r.stdout + r.stderr)[-300:])
+            return None
+        t32 = trace + ".386"
+        try:
+            self.drive(out, list(args) + [t32], timeout=timeout)
+        except OSError as e:
+            self.notes.append("32-bit pass skipped: this machine does not run 386 binaries (%s)" % e)
+            return None
+        same = open(t32, "rb").read() == open(trace, "rb").read()
+        self.extra["trace_of_32bit_build"] = "identical to the 64-bit trace" if same else "differs from the 64-bit trace: validated separately"
+        return None if same else t32
+
+    def trace_bare(self, args, trace, timeout=900):
+        """The same driver run as a static binary in an empty root directory with an empty environment (no time zone
+        database, no /etc, no HOME: a scratch container).  What the library sets up at start-up from its surroundings must not
+        change what it computes.  Returns None when the trace is byte for byte the one already validated (or when this process
+        may not chroot: a note), otherwise the path of the differing trace."""
+        root = self.path("bare_root")
+        os.makedirs(root, exist_ok=True)
+        env = self.goenv()
+        env["CGO_ENABLED"] = "0"
+        r = subprocess.run(["go", "build", "-tags", "verif", "-o", os.path.join(root, "drive"), "./cmd/drive"], cwd=HARNESS, env=env, capture_output=True, text=True)
+        if r.returncode != 0:
+            self.notes.append("bare-environment pass skipped: static build failed: " + (r.stdout + r.stderr)[-300:])
+            return None
+        chroot = shutil.which("chroot") or ("/usr/sbin/chroot" if os.path.exists("/usr/sbin/chroot") else None)
+        if os.geteuid() != 0 or not chroot:
+            self.notes.append("bare-environment pass skipped: not permitted to chroot")
+            return None
+        try:
+            r = subprocess.run([chroot, root, "/drive"] + list(args) + ["/trace.ndjson"], cwd=root, capture_output=True, text=True, timeout=timeout,
+                               env={"VERIF_SEED": str(self.seed), "VERIF_TIER": self.tier})
+        except subprocess.TimeoutExpired:
+            raise Inconclusive("driver timed out in the bare environment: %s" % " ".join(args))
+        if r.returncode == 125 or (r.returncode in (126, 127) and "chroot:" in r.stderr):
+            self.notes.append("bare-environment pass skipped: chroot failed: " + r.stderr[-200:])
+            return None
+        if r.returncode != 0:
+            crash = self.library_panic(r)
+            if crash:
+                raise LibraryCrash(crash, " ".join(args[:2]) + " (empty root directory)")
+            raise Inconclusive("driver failed in the bare environment rc=%d: %s\n%s" % (r.returncode, " ".join(args), r.stderr[-3000:]))
+        tb = os.path.join(root, "trace.ndjson")
+        same = open(tb, "rb").read() == open(trace, "rb").read()
+        self.extra["trace_in_empty_root_directory"] = "identical to the ordinary trace" if same else "differs from the ordinary trace: validated separately"
+        return None if same else tb
+
     @staticmethod
     def library_panic(r):
         """If the driver process died of a panic / fatal error raised inside the repository's code in a goroutine the driver
